@@ -13,6 +13,7 @@ EXPLANATION = (
     "terminator in the bodies reachable from <HyperLogLog as Deserialize>::deserialize. R20-field-tables: names given to "
     "serialize_field, the FIELDS const, the visit_str arms and the non-phantom struct fields coincide; each serialised value is the "
     "field of the same name; each map key's value flows into the aggregate field of the same name; duplicate and missing keys reach Err."
+    ' R20-field-flow: the value read under map key X (Field variant derived from visit_str) flows into the aggregate field named X.'
 )
 NOT_DECIDED = "equality of values through an arbitrary serde data format (delegated to Vec<u8>/usize/hasher impls)"
 ASSUMPTIONS = ["serde drives visit_map/visit_str only through the Visitor trait; Vec<u8>, usize and the hasher round-trip through their own serde impls"]
